@@ -238,6 +238,17 @@ func nondetCensus(r *Run, label string, rootNames []string, allowTime bool) {
 				case *ssa.Range:
 					if _, isMap := x.X.Type().Underlying().(*types.Map); isMap {
 						if reason, ok := excepted(mapRangeExceptions, name, "range-map"); ok {
+							if name == "(*T).Repeat" {
+								// the exception rests on the total order of sort.Strings erasing the iteration order
+								host := fn
+								if h := p.Fn(name); h != nil {
+									host = h
+								}
+								if pos, sorted := repeatKeysSorted(p, host); !sorted {
+									r.Fail(label+"#"+name+".range-map", pos, "the action keys collected by iterating over the map are sampled without a dominating sort.Strings (a total order): which action a drawn index selects depends on map iteration order, not only on the bits")
+									continue
+								}
+							}
 							r.OK(label+"#"+name+".range-map", x.Pos(), "map iteration, order erased before use: "+reason)
 						} else {
 							r.Fail(label+"#"+name+".range-map", x.Pos(), "iteration over a map inside the "+label+" closure: iteration order is random and can steer draws")
